@@ -115,4 +115,85 @@ fn build_eq_checker(this: TokenStream) -> TokenStream { unimplemented!() }
 //@     | r is Ok ==> st(final(wcb), *final(use_bounds)) == field_helper(st(old(wcb), *old(use_bounds)), &field.hattrs.cmp, CompareOp::Hash),
 //@     | final(wcb).gps == old(wcb).gps
 //@ end
+
+verus! {
+#[verifier::external_body]
+pub fn build_to_index_fn(variants: &[VariantEntry]) -> TokenStream { unimplemented!() }
+// C03/C04 at field level for the comparison family: ignored fields contribute nothing; otherwise helper attributes most specific
+// first up to the selected by/key, then the per-trait / shared arguments, then the field type iff no by/key is selected
+pub open spec fn cmp_field_phase(s: St, go: bool, g: &GenericParamSet, f: &FieldEntry, tgt: CompareOp) -> St {
+    if ign(&f.hattrs.cmp, tgt) { s } else {
+        let s1 = field_helper(St { go, ..s }, &f.hattrs.cmp, tgt);
+        let s2 = items_phase(s1, &f.hattrs, DeriveItemKind::CompareOp(tgt));
+        if sel(&f.hattrs.cmp, tgt) is None { field_default(s2, g, &f.field.ty) } else { s2 }
+    }
+}
+pub open spec fn cmp_fields_phase(s: St, go: bool, g: &GenericParamSet, fs: Seq<FieldEntry>, n: int, tgt: CompareOp) -> St decreases n {
+    if n <= 0 { s } else { cmp_field_phase(cmp_fields_phase(s, go, g, fs, n - 1, tgt), go, g, &fs[n - 1], tgt) }
+}
+pub open spec fn all_accept(fs: Seq<FieldEntry>, n: int, tgt: CompareOp) -> bool {
+    forall|i: int| 0 <= i < n ==> accept(&(#[trigger] fs[i]).hattrs.cmp, tgt)
+}
+pub open spec fn cmp_variants_phase(s: St, go: bool, g: &GenericParamSet, vs: Seq<VariantEntry>, n: int, tgt: CompareOp) -> St decreases n {
+    if n <= 0 { s } else {
+        let p = cmp_variants_phase(s, go, g, vs, n - 1, tgt);
+        let s1 = level_phase(St { go, ..p }, &vs[n - 1].hattrs, DeriveItemKind::CompareOp(tgt));
+        cmp_fields_phase(St { go: true, ..s1 }, s1.go, g, vs[n - 1].fields@, vs[n - 1].fields@.len() as int, tgt)
+    }
+}
+pub open spec fn all_variants_accept(vs: Seq<VariantEntry>, n: int, tgt: CompareOp) -> bool {
+    forall|i: int| 0 <= i < n ==> all_accept((#[trigger] vs[i]).fields@, vs[i].fields@.len() as int, tgt)
+}
+pub proof fn lemma_not_all(vs: Seq<VariantEntry>, idx: int, tgt: CompareOp)
+    requires 0 <= idx < vs.len(), !all_accept(vs[idx].fields@, vs[idx].fields@.len() as int, tgt),
+    ensures !all_variants_accept(vs, vs.len() as int, tgt),
+{
+}
+pub open spec fn source_accept(source: ItemSource, tgt: CompareOp) -> bool {
+    match source {
+        ItemSource::Struct { item, fields } => all_accept(fields@, fields@.len() as int, tgt),
+        ItemSource::Enum { item, variants } => all_variants_accept(variants@, variants@.len() as int, tgt),
+    }
+}
+pub open spec fn source_phase(s: St, go: bool, g: &GenericParamSet, source: ItemSource, tgt: CompareOp) -> St {
+    match source {
+        ItemSource::Struct { item, fields } => cmp_fields_phase(s, go, g, fields@, fields@.len() as int, tgt),
+        ItemSource::Enum { item, variants } => cmp_variants_phase(s, go, g, variants@, variants@.len() as int, tgt),
+    }
+}
+}
+//@ enum item_type/compare_op.rs ItemSource
+#[verus_verify]
+impl ItemSource<'_> {
+//@ fn item_type/compare_op.rs ItemSource::kind
+//@ end
+}
+#[verus_verify]
+impl<'a> VariantEntry<'a> {
+    #[verifier::external_body]
+    fn make_pat(&self, prefix: &str) -> TokenStream { unimplemented!() }
+}
+#[verus_verify]
+impl HelperAttributesForCompareOp {
+    // proved in unit cmp_flags (same contracts)
+    #[verifier::external_body]
+    #[verus_spec(r => ensures r is Err <==> bad_ignore(self, op), r matches Ok(b) ==> b == ign(self, op))]
+    fn is_ignore(&self, op: CompareOp) -> Result<bool> { unimplemented!() }
+    #[verifier::external_body]
+    #[verus_spec(r => requires op is Ord || op is PartialOrd, ensures r is Err <==> bad_reverse(self, op), r matches Ok(b) ==> b == rev(self, op))]
+    fn is_reverse(&self, op: CompareOp) -> Result<bool> { unimplemented!() }
+}
+
+//@ fn item_type/compare_op.rs build_ord_body
+//@   attr #[verus_verify]
+//@   spec r => ensures
+//@     | r is Err <==> !source_accept(source, CompareOp::Ord),
+//@     | r is Ok ==> same(final(wcb), source_phase(st(old(wcb), true), use_bounds, &old(wcb).gps, source, CompareOp::Ord)),
+//@     | final(wcb).gps == old(wcb).gps
+//@   rewrite R3
+//@   before |fields: &[FieldEntry], ## #[verus_spec(r => requires op is Ord, kind == DeriveItemKind::CompareOp(CompareOp::Ord), ensures r is Err <==> !all_accept(fields@, fields@.len() as int, CompareOp::Ord), r is Ok ==> same(final(wcb), cmp_fields_phase(st(old(wcb), true), use_bounds, &old(wcb).gps, fields@, fields@.len() as int, CompareOp::Ord)), final(wcb).gps == old(wcb).gps)]
+//@   before for field in fields ## #[verus_spec(it => invariant it.seq().len() == fields@.len(), forall|i: int| 0 <= i < fields@.len() ==> *it.seq()[i] == fields@[i], 0 <= it.index@ <= fields@.len(), op is Ord, kind == DeriveItemKind::CompareOp(CompareOp::Ord), wcb.gps == old(wcb).gps, all_accept(fields@, it.index@, CompareOp::Ord), same(wcb, cmp_fields_phase(st(old(wcb), true), use_bounds, &old(wcb).gps, fields@, it.index@, CompareOp::Ord)))]
+//@   before let body = build_from_fields(&variant.fields ## proof! { assert(*variant == variants@[vi.index@ as int]); if !all_accept(variant.fields@, variant.fields@.len() as int, CompareOp::Ord) { lemma_not_all(variants@, vi.index@ as int, CompareOp::Ord); } }
+//@   before for variant in variants ## #[verus_spec(vi => invariant vi.seq().len() == variants@.len(), forall|i: int| 0 <= i < variants@.len() ==> *vi.seq()[i] == variants@[i], 0 <= vi.index@ <= variants@.len(), vi.index@ < variants@.len() ==> *vi.seq()[vi.index@ as int] == variants@[vi.index@ as int], op is Ord, kind == DeriveItemKind::CompareOp(CompareOp::Ord), wcb.gps == old(wcb).gps, all_variants_accept(variants@, vi.index@, CompareOp::Ord), same(wcb, cmp_variants_phase(st(old(wcb), true), use_bounds, &old(wcb).gps, variants@, vi.index@, CompareOp::Ord)))]
+//@ end
 fn main() {}
